@@ -256,6 +256,10 @@ def trace_part(chk, n_seg, n_file):
             except Exception:
                 k = 'err'
             awarn = any('ANALYSIS segment could not be parsed' in str(x.message) for x in w)
+        # the same pairs through the sample object (FCSData.text, and what a slice and a pickle of it carry): exactly the
+        # file's merged dictionary - no pair added, dropped or re-typed on the way
+        if k == 'ok':
+            sample_text_case(chk, path, ff, {'version': version, 'n': [len(a), len(b), len(c)], 'd': ord(dl)})
         tb, te = lay['text_begin'], lay['text_end']
         rec = {'op': 'merge', 'd': ord(dl), 'q': list(blob[tb:te + 1]),
                'sq': list(blob[lay['sb']:lay['se'] + 1]) if lay['sb'] else [], 'sn': announced,
@@ -325,6 +329,30 @@ def trace_part(chk, n_seg, n_file):
         if i in rejects:
             chk.violation('C14/trace/' + rejects[i], r, {'verdict': rejects[i]}, {'k': r['k'], 'dict': r['dict']},
                           direction='trace')
+
+
+def sample_text_case(chk, path, ff, meta):
+    import pickle
+    want = dict(ff.text)
+    try:
+        with warnings.catch_warnings():
+            warnings.simplefilter('ignore')
+            d = FlowCal.io.FCSData(path)
+            views = [('FCSData.text', d.text), ('slice.text', d[:, 0].text), ('pickle.text', pickle.loads(pickle.dumps(d)).text),
+                     ('file.text-after-sample-load', dict(ff.text))]
+    except Exception:  # noqa   (whether the one-event sample itself loads is C01's / C16's business)
+        chk.extra['sample_text_not_loadable'] = chk.extra.get('sample_text_not_loadable', 0) + 1
+        return
+    chk.extra['sample_text_cases'] = chk.extra.get('sample_text_cases', 0) + 1
+    for name, got in views:
+        got = dict(got)
+        if got != want or any(not isinstance(v, str) for v in got.values()):
+            extra_keys = sorted(set(got) - set(want))
+            missing = sorted(set(want) - set(got))
+            changed = sorted(x for x in set(want) & set(got) if want[x] != got[x])
+            chk.violation('C14/sample-text/' + name + ('/added' if extra_keys else '/lost' if missing else '/changed'), meta,
+                          {'pairs': len(want)}, {'added': extra_keys[:4], 'lost': missing[:4], 'changed': changed[:4]})
+            return
 
 
 def mc_part(chk, toklen, npairs, nsym):
